@@ -259,6 +259,15 @@ pub fn malform(r: &mut Rng, e: &mut EchoReq) -> Option<String> {
             e.body = Some(pairs.iter().map(|(k, v)| format!("{k}={v}")).collect::<Vec<_>>().join("&").into_bytes());
             Some(why.into())
         }
+        "echo_wild" if r.chance(1, 4) => {
+            // /mode/{mode}: the route does not even exist on an unchanged
+            // tree (its parameter type is refused at registration); whatever
+            // a tree does with it, naming the data-carrying variant is no
+            // valid request
+            let v = *r.pick(&["Custom", "custom", "Custom(1)", "Custom=1", "Fast;x"]);
+            e.path_segs = vec!["mode".to_string(), v.to_string()];
+            Some(format!("/mode/{v}"))
+        }
         "echo_wild" | "echo_raw" | "echo_stream" if e.path_segs.len() >= 1 && e.op != "echo_stream" => {
             // a string-typed path variable (or a component of a wildcard)
             // whose escapes do not decode to UTF-8
